@@ -715,6 +715,9 @@ class ParserField:
             dependencies = []
             attr_dependencies = []
             for dep in self.dependencies:
+                if dep not in alias_map and isinstance(dep, str) and dep.lower() in alias_map:
+                    # the aliases of a case-insensitive field are kept lower-cased
+                    dep = dep.lower()
                 if dep in alias_map:
                     dep = alias_map[dep]
                 key = dep
@@ -731,6 +734,8 @@ class ParserField:
                     continue
 
                 field = fields[key]
+                # (kept under the field's name, however the declaration spells it: that is the key of the data)
+                dep = field.name
                 if self.property:
                     # if no getter function
                     # dependant will not affect
